@@ -2,23 +2,23 @@
    Model: C05/WriteLoop.v (Prepare/Write steps of any number of writers of one document, any schedule).
    Only property theorems here, each closed by [exact]. *)
 From Coq Require Import Permutation.
-From SG Require Import Base.Prelude C05.WriteLoop C05.WriteLoopProofs C05.WriteLoopTheorems.
+From SG Require Import Base.Prelude C05.WriteLoop C05.WriteLoopProofs C05.WriteLoopTheorems C05.WriteLoopParents.
 Open Scope N_scope.
 
 (* every acknowledged write is present in the document's revision history and has its own commit/sequence,
    whatever the interleaving of the writers' read / callback / compare-and-swap steps *)
 Theorem C05_acked_present : forall ac tab ops sched i w r q,
-  nth_error (ws (run true ac tab ops sched)) i = Some w -> w_out w = Some (OAck r q) ->
-  has_rev (d_tree (st (run true ac tab ops sched))) r = true /\
-  exists c, In c (commits (run true ac tab ops sched)) /\ c_rev c = r /\ c_seq c = q.
+  nth_error (ws (run true false ac tab ops sched)) i = Some w -> w_out w = Some (OAck r q) ->
+  has_rev (d_tree (st (run true false ac tab ops sched))) r = true /\
+  exists c, In c (commits (run true false ac tab ops sched)) /\ c_rev c = r /\ c_seq c = q.
 Proof. exact acked_present. Qed.
 Print Assumptions C05_acked_present.
 
 (* each committed write received a sequence strictly greater than that of the write it superseded, and the
    stored document carries the sequence of the last commit (what the feed will announce) *)
 Theorem C05_acked_seq_increasing : forall ac tab ops sched,
-  commits_ok 0 (commits (run true ac tab ops sched)) /\
-  last_seq 0 (commits (run true ac tab ops sched)) = d_seq (st (run true ac tab ops sched)).
+  commits_ok 0 (commits (run true false ac tab ops sched)) /\
+  last_seq 0 (commits (run true false ac tab ops sched)) = d_seq (st (run true false ac tab ops sched)).
 Proof. exact acked_seq_increasing. Qed.
 Print Assumptions C05_acked_seq_increasing.
 
@@ -29,40 +29,53 @@ Print Assumptions C05_commit_sequences_ordered.
 
 (* no two writes ever share a sequence, and none is both stored and published as unused *)
 Theorem C05_sequences_unique : forall ac tab ops sched,
-  NoDup (committed_seqs (run true ac tab ops sched) ++ released (run true ac tab ops sched)
-         ++ flat_map wcar (ws (run true ac tab ops sched))) /\
-  forall x, In x (committed_seqs (run true ac tab ops sched) ++ released (run true ac tab ops sched)
-                  ++ flat_map wcar (ws (run true ac tab ops sched))) <-> 1 <= x <= last (run true ac tab ops sched).
+  NoDup (committed_seqs (run true false ac tab ops sched) ++ released (run true false ac tab ops sched)
+         ++ flat_map wcar (ws (run true false ac tab ops sched))) /\
+  forall x, In x (committed_seqs (run true false ac tab ops sched) ++ released (run true false ac tab ops sched)
+                  ++ flat_map wcar (ws (run true false ac tab ops sched))) <-> 1 <= x <= last (run true false ac tab ops sched).
 Proof. exact accounted_always. Qed.
 Print Assumptions C05_sequences_unique.
 
 (* a writer that does not end with an acknowledgement (409, 403, storage error, cancelled push, lost CAS race)
    leaves no trace in the stored document: the document changes only at an acknowledged write *)
 Theorem C05_loser_leaves_no_trace : forall fixed ac tab s e,
-  st (step fixed ac tab s e) <> st s ->
+  st (step fixed false ac tab s e) <> st s ->
   exists i w p, e = Write i /\ nth_error (ws s) i = Some w /\ w_prep w = Some p /\ w_out w = None /\
-    st (step fixed ac tab s e) = p_doc p /\ p_cas p = d_cas (st s) /\
-    nth_error (ws (step fixed ac tab s e)) i =
-      Some {| w_op := w_op w; w_attempt := w_attempt w; w_docseq := 0; w_unusedseqs := []; w_prep := None;
+    st (step fixed false ac tab s e) = p_doc p /\ p_cas p = d_cas (st s) /\
+    nth_error (ws (step fixed false ac tab s e)) i =
+      Some {| w_op := w_op w; w_attempt := w_attempt w; w_matchrev := w_matchrev w; w_docseq := 0; w_unusedseqs := []; w_prep := None;
               w_out := Some (OAck (p_rev p) (d_seq (p_doc p))) |}.
 Proof. exact store_changes_only_by_ack. Qed.
 Print Assumptions C05_loser_leaves_no_trace.
 
-(* PARTIAL: "with conflicts disallowed at most one acknowledged write exists per parent, the history is a
-   single chain whose length is the number of acknowledged writes" is not proved over this model (the leaf /
-   conflict checks are modelled and compared with the code on every harness case, and monitored on the
-   implementation by the one_child_per_parent and no_conflict_single_live_leaf monitors). *)
-Definition C05_one_child_per_parent_full_statement : Prop :=
-  forall tab ops sched c1 c2 p,
-    let s := run true false tab ops sched in
-    In c1 (commits s) -> In c2 (commits s) -> c_parent c1 = Some p -> c_parent c2 = Some p -> c1 = c2.
+(* one accepted child per parent: a REST write is never acknowledged on a parent revision that an earlier
+   acknowledged write (REST or pushed) already extended -- every other writer on that parent gets the
+   conflict error.  (Pushed revisions may legitimately branch when conflicts are allowed, so the statement is
+   about REST writes; for conflict-free databases the tree-level chain property is C04's.) *)
+Theorem C05_put_one_child_per_parent : forall ac tab ops sched l1 c2 l3 q c1,
+  commits (run true false ac tab ops sched) = l1 ++ c2 :: l3 -> c_put c2 = true -> c_parent c2 = Some q ->
+  In c1 l1 -> c_parent c1 <> Some q.
+Proof. exact put_one_child_per_parent. Qed.
+Print Assumptions C05_put_one_child_per_parent.
+
+(* Transfer to the code as it is.  The theorems above are stated for the model in which every write is
+   compare-and-swap ([resurrect_unchecked = false]).  The storage layer writes a live revision over a tombstone
+   WITHOUT the compare-and-swap (known finding, C05_Refuted.v); the correspondence harness runs the faithful
+   model ([true]).  The two coincide on every run in which no live revision is written over a tombstone that
+   changed since it was read: *)
+Theorem C05_faithful_model_coincides : forall fixed ac tab ops sched,
+  no_stale_resurrection fixed ac tab ops sched ->
+  run fixed true ac tab ops sched = run fixed false ac tab ops sched.
+Proof. exact faithful_run_eq. Qed.
+Print Assumptions C05_faithful_model_coincides.
 
 (* non-vacuity: a concrete racing schedule in which a writer loses two CAS races and is then rejected *)
 Example C05_nonvacuous :
-  let s := run true true leak_tab leak_ops leak_sched in
+  let s := run true false true leak_tab leak_ops leak_sched in
   all_finished s /\ length (commits s) = 4%nat /\ last s = 6 /\
-  exists w, nth_error (ws s) 1 = Some w /\ w_out w = Some OConflict.
+  exists w, nth_error (ws s) 1 = Some w /\ w_out w = Some OConflict /\
+  no_stale_resurrection true true leak_tab leak_ops leak_sched.
 Proof.
-  vm_compute. split; [|split; [reflexivity | split; [reflexivity | eexists; split; reflexivity]]].
+  vm_compute. split; [|split; [reflexivity | split; [reflexivity | eexists; split; [reflexivity | split; [reflexivity | repeat split]]]]].
   intros x H. repeat (destruct H as [<-|H]; [discriminate|]). destruct H.
 Qed.
